@@ -12,6 +12,8 @@ from ch import run_crosshair as rc  # noqa: E402
 CONDITIONS = [
     {"fn": "_run", "expect": "confirm", "timeout": 240},
     {"fn": "_run_deep", "expect": "confirm", "timeout": 600, "tiers": ("thorough",)},
+    {"fn": "_run_fault", "expect": "confirm", "timeout": 240},
+    {"fn": "_run_handles", "expect": "confirm", "timeout": 240},
     {"fn": "_twin", "expect": "refute", "timeout": 60},
 ]
 
@@ -37,8 +39,8 @@ def main():
             "functions": ["aspire/utils.py:PoolHandler.__init__", "aspire/utils.py:PoolHandler.__enter__", "aspire/utils.py:PoolHandler.__exit__", "aspire/aspire.py:Aspire.enable_pool", "aspire/aspire.py:Aspire.auto_checkpoint", "aspire/aspire.py:Aspire.__init__"],
         },
         stubs=["multiprocessing pool -> FakePool counting close()/join()", "user callables accept map_fn"],
-        outside=["an exception raised inside PoolHandler.__enter__ itself (a pool whose .map attribute raises)", "nesting deeper than the bound"],
-        bounds={"nesting_depth": 3 if tier == "quick" else 4, "exception_positions": "none, and after entering each level, and in the innermost body", "flags": "close_pool, parallelize_prior, pre-existing checkpoint defaults"},
+        outside=["an exception raised inside PoolHandler.__enter__ itself (a pool whose .map attribute raises)", "nesting deeper than the bound", "pool-shutdown faults at nesting depth > 2"],
+        bounds={"nesting_depth": 3 if tier == "quick" else 4, "exception_positions": "none, and after entering each level, and in the innermost body", "flags": "close_pool, parallelize_prior, pre-existing checkpoint defaults", "pool_shutdown_fault": "close() or join() of the pool at level 0 or 1 raises (depth <= 2)", "handles": "auto_checkpoint handles created up front / inside an already finished context and entered later (depth <= 3)"},
     )
 
 
